@@ -56,6 +56,10 @@ theirs = json.load(open(os.path.join(vf, 'known_findings.json')))
 keep_t = {(f['property'], f['signature']) for f in theirs['findings']}
 removed = [f for f in cur['findings'] if f['property'] in props and (f['property'], f['signature']) not in keep_t]
 cur['findings'] = [f for f in cur['findings'] if f not in removed]
+have_f = {(f['property'], f['signature']) for f in cur['findings']}
+newf = [f for f in theirs['findings'] if f['property'] in props and (f['property'], f['signature']) not in have_f]
+cur['findings'] += newf
+print('new/re-keyed open findings:', [f['signature'] for f in newf])
 have = set(cur['fixed'])
 added = []
 for s in theirs['fixed']:
